@@ -686,3 +686,13 @@ Proof.
       destruct m; try (apply (G _ H)). inversion H. apply fill_with_preserves.
     + inversion H. apply impute_preserves_non_null_l.
 Qed.
+
+(* ---- the mode is a most frequent value; the recorded conventions agree with the spec outside their domains ---- *)
+Lemma mode_l_spec : forall l v, mode_l l = Some v -> In v l /\ forall y, In y l -> (count_of y l <= count_of v l)%nat.
+Proof.
+  intros l v H. unfold mode_l in H. apply find_some in H. destruct H as [Hin H]. split; auto.
+  intros y Hy. rewrite forallb_forall in H. apply Nat.leb_le. apply H. exact Hy.
+Qed.
+
+Lemma fill_trunc_integer_l : forall z c, fill_trunc (Some (inject_Z z)) c = fill_with (Some (inject_Z z)) c.
+Proof. intros. unfold fill_trunc. cbn [option_map]. rewrite qtrunc_integer. reflexivity. Qed.
